@@ -129,7 +129,11 @@ func c15R1R2(a *A, r *Roles, ar *Arms) {
 				return
 			}
 			// existing entry: fa.X is a lookup in the cache keyed by this event's table id
-			if lk, ok := resolve(fa.X).(*ssa.Lookup); ok && lk.X == r.Tables && isTableIDOf(resolve(lk.Index), r) {
+			base := resolve(fa.X)
+			if ex, isEx := base.(*ssa.Extract); isEx && ex.Index == 0 {
+				base = ex.Tuple // entry, found := cache[id]
+			}
+			if lk, ok := base.(*ssa.Lookup); ok && lk.X == r.Tables && isTableIDOf(resolve(lk.Index), r) {
 				storeBlocks[x.Block()] = true
 				a.hold("C15-R1", "latest-map@parser[update]", w.posOf(x), "existing entry's table map replaced")
 			}
